@@ -473,6 +473,7 @@ fn run(ctx: &mut Ctx) -> Verdict {
     // capability subset
     let mut caps: BTreeSet<String> = BTreeSet::new();
     let mut uris: Vec<String> = vec![CAP_BASE10.to_string()];
+    let mut url_arg_before_scheme = false;
     for (tok, uri) in SIMPLE_CAPS {
         if ctx.pick(2) == 1 {
             caps.insert(tok.to_string());
@@ -485,7 +486,17 @@ fn run(ctx: &mut Ctx) -> Verdict {
             for s in &schemes {
                 caps.insert(format!("url:{s}"));
             }
-            uris.push(format!("{URI_PREFIX}url:1.0?scheme={}", schemes.join(",")));
+            // the query of the capability URI may carry other arguments next to scheme= (vendor
+            // extensions): they change nothing about which schemes are advertised
+            let variant = ctx.tape.weighted(&[5, 1, 1, 1]);
+            url_arg_before_scheme = variant >= 2;
+            let q = match variant {
+                0 => format!("scheme={}", schemes.join(",")),
+                1 => format!("scheme={}&x-max-size=1024", schemes.join(",")),
+                2 => format!("x-proxy=none&scheme={}", schemes.join(",")),
+                _ => format!("a=1&scheme={}&b=2", schemes.join(",")),
+            };
+            uris.push(format!("{URI_PREFIX}url:1.0?{q}"));
         }
     }
     if ctx.pick(4) != 0 {
@@ -573,7 +584,15 @@ fn run(ctx: &mut Ctx) -> Verdict {
                     return Verdict::violation(format!("rejected-but-sent/{opname}"), format!("{r:?} failed with {e} but {delta} message(s) reached the server"));
                 }
                 if lic {
-                    return Verdict::violation(format!("licensed-request-rejected/{opname}"), format!("{r:?} is within the advertised capabilities {caps:?} but was rejected: {e}"));
+                    // known finding (same root cause as C12's uri-not-unescaped): capability text is not
+                    // XML-unescaped, so in "...?x=1&amp;scheme=ftp" the key is read as "amp;scheme"
+                    let uses_url = matches!(r, Req::DeleteConfig(Src::Url(_)) | Req::EditConfig { src: Src::Url(_), .. });
+                    let class = if uses_url && url_arg_before_scheme && e.contains("UnsupportedUrlScheme") {
+                        format!("licensed-request-rejected/{opname}/url-capability-argument-before-scheme")
+                    } else {
+                        format!("licensed-request-rejected/{opname}")
+                    };
+                    return Verdict::violation(class, format!("{r:?} is within the advertised capabilities {caps:?} (capability URIs {uris:?}) but was rejected: {e}"));
                 }
                 ctx.count("outcome.rejected_locally");
             }
@@ -595,7 +614,7 @@ pub static C09: PropSpec = PropSpec {
     runs: |t| if t == Tier::Thorough { 30_000_000 } else { 200_000 },
     enumerated: |_| 0,
     run,
-    rule: "server hello advertises a seeded subset of the RFC 6241 capabilities (every combination of url schemes) and optionally the Junos capability; 1-5 requests per session drawn from every builder with every datastore / filter / option / parameter combination (non-default values only where the default is not serialised). Non-trivial = at least one request was within the advertised set; distinct = distinct event-log hash (capability set + request sequence)",
+    rule: "server hello advertises a seeded subset of the RFC 6241 capabilities (every combination of url schemes, the scheme list alone or next to other query arguments) and optionally the Junos capability; 1-5 requests per session drawn from every builder with every datastore / filter / option / parameter combination (non-default values only where the default is not serialised). Non-trivial = at least one request was within the advertised set; distinct = distinct event-log hash (capability set + request sequence)",
     components: &[("netconf session + request builders + capabilities.rs", "real"), ("transport", "stub: in-memory"), ("NETCONF server", "model: records and parses every request")],
     assumptions: &[
         "decided by generated peer behaviour (capability sets) and call sequences; schedule fixed",
